@@ -49,6 +49,14 @@ type Writers struct {
 	Antichains bool
 	Reload     bool // offer restart + Load(-1) of every replica
 	Snapshot   bool // offer SaveSnapshot + restart + LoadFromSnapshot of every writer replica
+	// SnapshotLive: offer "V<i>" (save a snapshot, keep running) and "R<i>" (LoadFromSnapshot on the running
+	// store, which may hold more by then: the snapshot re-delivers entries it already has)
+	SnapshotLive bool
+	// FaultyMerge: offer "f<i><j>", a merge during which replica i's write of its cached remote heads fails
+	FaultyMerge bool
+	// FaultyWrite: offer "e<i>:<op>", a local write during which the write of the cached local head fails; the
+	// call may fail (then the world remembers that an unacknowledged entry may sit in the log) or succeed
+	FaultyWrite bool
 	Gated      bool // gate the observer's replication fetches: completion order becomes explorer choice
 	Addr       string
 	replicate  []bool
@@ -283,7 +291,15 @@ func (w *Writers) Key() string {
 	for i := range w.Stores {
 		parts[i] = w.SetKey(i)
 	}
-	return strings.Join(parts, " | ")
+	k := strings.Join(parts, " | ")
+	if w.SnapshotLive {
+		for i := 0; i < w.N; i++ {
+			if saved, _ := w.Scratch[fmt.Sprintf("snapshot%d", i)].(string); saved != "" {
+				k += fmt.Sprintf(" # snapshot%d={%s}", i, saved)
+			}
+		}
+	}
+	return k
 }
 
 // WireCopy round-trips heads through the JSON wire format, as an announcement would.
@@ -320,6 +336,11 @@ func (w *Writers) Enabled() []string {
 			out = append(out, fmt.Sprintf("w%d:%s", i, op.Name))
 		}
 	}
+	if w.FaultyWrite {
+		for i := 0; i < w.N; i++ {
+			out = append(out, fmt.Sprintf("e%d:%s", i, w.Ops[0].Name))
+		}
+	}
 	for i := 0; i < w.N; i++ {
 		for j := 0; j < w.N; j++ {
 			if i == j || w.Stores[j].OpLog().Len() == 0 {
@@ -327,6 +348,9 @@ func (w *Writers) Enabled() []string {
 			}
 			if w.hasNew(i, j) {
 				out = append(out, fmt.Sprintf("m%d%d", i, j))
+				if w.FaultyMerge {
+					out = append(out, fmt.Sprintf("f%d%d", i, j))
+				}
 			} else if w.Dup {
 				out = append(out, fmt.Sprintf("r%d%d", i, j))
 			}
@@ -357,6 +381,17 @@ func (w *Writers) Enabled() []string {
 		for i := 0; i < w.N; i++ {
 			if w.Stores[i].OpLog().Len() > 0 {
 				out = append(out, fmt.Sprintf("S%d", i))
+			}
+		}
+	}
+	if w.SnapshotLive {
+		for i := 0; i < w.N; i++ {
+			saved, _ := w.Scratch[fmt.Sprintf("snapshot%d", i)].(string)
+			if w.Stores[i].OpLog().Len() > 0 && saved != w.SetKey(i) {
+				out = append(out, fmt.Sprintf("V%d", i)) // (saving the same state twice changes nothing)
+			}
+			if saved != "" {
+				out = append(out, fmt.Sprintf("R%d", i))
 			}
 		}
 	}
@@ -507,6 +542,56 @@ func (w *Writers) Do(a string) error {
 		} else if err != nil {
 			w.pending = append(w.pending, explore.Violation{Signature: "write-failed:" + opClass(name), Detail: fmt.Sprintf("%s: %v", a, err)})
 		}
+	case a[0] == 'e':
+		// a local write during which the write of `_localHeads` fails (one storage fault)
+		i := int(a[1] - '0')
+		peer := fmt.Sprintf("W%d", i)
+		w.Net.Gates.Enable(func(kind, p, key, caller string) bool {
+			return kind == "cache.put" && p == peer && strings.HasSuffix(key, "_localHeads")
+		})
+		st := w.Stores[i]
+		call := async(a, func() error { return w.Ops[0].Do(st) })
+		for round := 0; round < 100; round++ {
+			if qerr := sim.Quiesce(); qerr != nil {
+				return qerr
+			}
+			parked := w.Net.Gates.Parked()
+			if len(parked) == 0 && call.finished() {
+				break
+			}
+			for _, l := range parked {
+				_ = w.Net.Gates.Release(l, sim.AnswerFail)
+			}
+			for _, p := range w.Pumps {
+				p(w)
+			}
+		}
+		w.Net.Gates.Enable(nil)
+	case a[0] == 'f':
+		// a merge during which the merging replica's write of `_remoteHeads` fails (one storage fault)
+		i, j := int(a[1]-'0'), int(a[2]-'0')
+		heads, err := WireCopy(w.Stores[j].Address().String(), w.Stores[j].OpLog().Heads().Slice())
+		if err != nil {
+			return err
+		}
+		peer := fmt.Sprintf("W%d", i)
+		w.Net.Gates.Enable(func(kind, p, key, caller string) bool {
+			return kind == "cache.put" && p == peer && strings.HasSuffix(key, "_remoteHeads")
+		})
+		call := async(a, func() error { return w.Stores[i].Sync(bg, heads) })
+		for round := 0; round < 100; round++ {
+			if qerr := sim.Quiesce(); qerr != nil {
+				return qerr
+			}
+			parked := w.Net.Gates.Parked()
+			if len(parked) == 0 && call.finished() {
+				break
+			}
+			for _, l := range parked {
+				_ = w.Net.Gates.Release(l, sim.AnswerFail)
+			}
+		}
+		w.Net.Gates.Enable(nil)
 	case a[0] == 'm' || a[0] == 'r':
 		i, j := int(a[1]-'0'), int(a[2]-'0')
 		heads, err := WireCopy(w.Stores[j].Address().String(), w.Stores[j].OpLog().Heads().Slice())
@@ -543,6 +628,25 @@ func (w *Writers) Do(a string) error {
 		if after := w.SetKey(i); after != before {
 			// kept for the oracle of the property that names "load from disk" as a delivery route (C01)
 			w.Scratch["reload-changed-set"] = fmt.Sprintf("replica %d held {%s} before its restart and holds {%s} after Load(-1)", i, before, after)
+		}
+	case a[0] == 'V':
+		i := int(a[1] - '0')
+		if _, err := basestore.SaveSnapshot(bg, w.Stores[i]); err != nil {
+			w.Scratch["snapshot-save-error"] = err.Error()
+			break
+		}
+		w.Scratch[fmt.Sprintf("snapshot%d", i)] = w.SetKey(i)
+	case a[0] == 'R':
+		i := int(a[1] - '0')
+		before := w.SetKey(i)
+		if err := w.Stores[i].LoadFromSnapshot(bg); err != nil {
+			w.pending = append(w.pending, explore.Violation{Signature: "load-error", Detail: fmt.Sprintf("replica %d: LoadFromSnapshot on the running store: %v", i, err)})
+		}
+		if err := sim.Quiesce(); err != nil {
+			return err
+		}
+		if after := w.SetKey(i); after != before {
+			w.Scratch["reload-changed-set"] = fmt.Sprintf("replica %d held {%s}, loaded its own earlier snapshot and holds {%s}", i, before, after)
 		}
 	case a[0] == 'S':
 		i := int(a[1] - '0')
